@@ -266,8 +266,11 @@ func npmReqs(m guidedremediation.VerifManifest) string {
 	return hx.Join(xs, ",")
 }
 
-func runNpm(c npmCase, line string) string {
-	return hx.Guard(func() string {
+// runNpm returns the requirement list the real Read reported before the write (it becomes the last token of the
+// case line: the specification substitutes into THAT list) and the implementation's reply.
+func runNpm(c npmCase, line string) (before string, reply string) {
+	before = "-"
+	reply = hx.Guard(func() string {
 		dir, err := os.MkdirTemp(scratch, "n")
 		must(err)
 		defer os.RemoveAll(dir)
@@ -279,6 +282,7 @@ func runNpm(c npmCase, line string) string {
 		if err != nil {
 			return "r=readerr"
 		}
+		before = npmReqs(m)
 		var ups []result.PackageUpdate
 		for _, u := range c.ups {
 			ty := dep.NewType()
@@ -314,8 +318,12 @@ func runNpm(c npmCase, line string) string {
 			return "r=ok-rereaderr"
 		}
 		same := renderNpm(secs, layoutRng(line)) == string(b)
-		return fmt.Sprintf("r=ok dev=%s opt=%s prod=%s reqs=%s bytes=%s", secStr(secs[0]), secStr(secs[1]), secStr(secs[2]), npmReqs(m2), hx.B(same))
+		return fmt.Sprintf("r=ok dev=%s opt=%s prod=%s reqs=%s rb=%s bytes=%s", secStr(secs[0]), secStr(secs[1]), secStr(secs[2]), npmReqs(m2), before, hx.B(same))
 	})
+	if strings.HasPrefix(reply, "r=err") {
+		reply += " rb=" + before
+	}
+	return before, reply
 }
 
 var npmNames = []string{"plain", "left-pad", "@scope/pkg", "@s/p.q", "socket.io", "lodash.merge", "x.y.z", "a*b", "what?", "p|q", "#hash", "!bang",
@@ -696,7 +704,7 @@ type pdep struct {
 	ws                          bool
 }
 type pprop struct{ origin, name, value string }
-type pupd struct{ g, a, typ, cls, origin, from, to string }
+type pupd struct{ name, typ, cls, origin, from, to string }
 type pomCase struct {
 	projVersion string
 	deps        []pdep
@@ -715,7 +723,7 @@ func (c pomCase) line() string {
 	}
 	us := make([]string, len(c.ups))
 	for i, u := range c.ups {
-		us[i] = strings.Join([]string{hs(u.g), hs(u.a), hs(u.typ), hs(u.cls), hs(u.origin), hs(u.from), hs(u.to)}, ":")
+		us[i] = strings.Join([]string{hs(u.name), hs(u.typ), hs(u.cls), hs(u.origin), hs(u.from), hs(u.to)}, ":")
 	}
 	return fmt.Sprintf("pom %s %s %s %s", hs(c.projVersion), hx.Join(ds, ","), hx.Join(ps, ","), hx.Join(us, ","))
 }
@@ -732,7 +740,7 @@ func parsePom(t []string) pomCase {
 	}
 	for _, e := range splitList(t[4], ",") {
 		p := strings.Split(e, ":")
-		c.ups = append(c.ups, pupd{uhs(p[0]), uhs(p[1]), uhs(p[2]), uhs(p[3]), uhs(p[4]), uhs(p[5]), uhs(p[6])})
+		c.ups = append(c.ups, pupd{uhs(p[0]), uhs(p[1]), uhs(p[2]), uhs(p[3]), uhs(p[4]), uhs(p[5])})
 	}
 	return c
 }
@@ -1082,8 +1090,11 @@ func layoutKey(c pomCase) string {
 	return c2.line()
 }
 
-func runPom(c pomCase, comment, cdata bool) string {
-	return hx.Guard(func() string {
+// runPom returns the requirement list the real Read reported before the write (effective versions; last token of the
+// case line) and the implementation's reply.
+func runPom(c pomCase, comment, cdata bool) (before string, reply string) {
+	before = "-"
+	reply = hx.Guard(func() string {
 		s, err := openPom(c, layoutKey(c), comment, cdata)
 		if err != nil {
 			return "r=readerr"
@@ -1096,6 +1107,7 @@ func runPom(c pomCase, comment, cdata bool) string {
 			fmt.Fprintf(os.Stderr, "c13gen: abstract pom differs from Read's view\ncase  %s / %s\nread  %s / %s\n%s\n", cd, cp, pre.deps, pre.props, s.src)
 			os.Exit(3)
 		}
+		before = pre.reqs
 		var ups []result.PackageUpdate
 		for _, u := range c.ups {
 			// find the requirement this update was drawn from, to carry its exact dep.Type
@@ -1106,7 +1118,7 @@ func runPom(c pomCase, comment, cdata bool) string {
 				t, _ := r.Type.GetAttr(dep.MavenArtifactType)
 				cl, _ := r.Type.GetAttr(dep.MavenClassifier)
 				o, _ := r.Type.GetAttr(dep.MavenDependencyOrigin)
-				if g == u.g && a == u.a && normTyp(t) == normTyp(u.typ) && cl == u.cls && o == u.origin && pre.effective[i] == u.from {
+				if g+":"+a == u.name && normTyp(t) == normTyp(u.typ) && cl == u.cls && o == u.origin && pre.effective[i] == u.from {
 					ty = r.Type.Clone()
 					found = true
 					break
@@ -1123,11 +1135,14 @@ func runPom(c pomCase, comment, cdata bool) string {
 					ty.AddAttr(dep.MavenDependencyOrigin, u.origin)
 				}
 			}
-			ups = append(ups, result.PackageUpdate{Name: u.g + ":" + u.a, VersionFrom: u.from, VersionTo: u.to, Type: ty})
+			ups = append(ups, result.PackageUpdate{Name: u.name, VersionFrom: u.from, VersionTo: u.to, Type: ty})
 		}
 		out := filepath.Join(s.dir, "out", "pom.xml")
 		if err := s.rw.Write(s.m, scalibrfs.DirFS(s.dir), []result.Patch{{PackageUpdates: ups}}, out); err != nil {
-			return "r=err"
+			if _, serr := os.Stat(out); serr == nil {
+				return "r=err-but-wrote"
+			}
+			return "r=err rb=" + pre.reqs
 		}
 		b, err := os.ReadFile(out)
 		if err != nil {
@@ -1146,8 +1161,9 @@ func runPom(c pomCase, comment, cdata bool) string {
 			id = hx.B(string(b) == s.src)
 			tok = hx.B(sameTokens(s.src, string(b)))
 		}
-		return fmt.Sprintf("r=ok deps=%s props=%s reqs=%s id=%s tok=%s rest=%s", post.deps, post.props, post.reqs, id, tok, hx.B(maskValues(s.src) == maskValues(string(b))))
+		return fmt.Sprintf("r=ok deps=%s props=%s reqs=%s rb=%s id=%s tok=%s rest=%s", post.deps, post.props, post.reqs, pre.reqs, id, tok, hx.B(maskValues(s.src) == maskValues(string(b))))
 	})
+	return before, reply
 }
 
 // xmlTokens is the sequence of elements, attributes, text, comments, processing instructions and
@@ -1350,7 +1366,7 @@ func pomCandidates(c pomCase) []pupd {
 		t, _ := r.Type.GetAttr(dep.MavenArtifactType)
 		cl, _ := r.Type.GetAttr(dep.MavenClassifier)
 		o, _ := r.Type.GetAttr(dep.MavenDependencyOrigin)
-		out = append(out, pupd{g: g, a: a, typ: t, cls: cl, origin: o, from: v.effective[i]})
+		out = append(out, pupd{name: g + ":" + a, typ: t, cls: cl, origin: o, from: v.effective[i]})
 	}
 	return out
 }
@@ -1358,7 +1374,7 @@ func pomCandidates(c pomCase) []pupd {
 func pickTo(r *rand.Rand, c pomCase, u pupd) string {
 	// often: a version that fits the literal parts of the dependency's raw version
 	for _, d := range c.deps {
-		if d.g == u.g && d.a == u.a && strings.Contains(d.ver, "${") && r.Intn(4) != 0 {
+		if d.g+":"+d.a == u.name && strings.Contains(d.ver, "${") && r.Intn(4) != 0 {
 			fit := d.ver
 			for strings.Contains(fit, "${") {
 				i := strings.Index(fit, "${")
@@ -1393,7 +1409,7 @@ func emitPom(r *rand.Rand, c pomCase, thorough bool, emit func(pomCase, bool, bo
 	distinct := func(us []pupd) bool {
 		seen := map[string]bool{}
 		for _, u := range us {
-			k := u.g + ":" + u.a + ":" + normTyp(u.typ) + ":" + u.cls
+			k := u.name + ":" + normTyp(u.typ) + ":" + u.cls
 			if seen[k] {
 				return false
 			}
@@ -1431,7 +1447,10 @@ func emitPom(r *rand.Rand, c pomCase, thorough bool, emit func(pomCase, bool, bo
 			us = []pupd{cands[r.Intn(len(cands))]}
 		}
 		if r.Intn(30) == 0 {
-			us = append(us, pupd{g: "absent.g", a: "absent-a", from: "1", to: "2"})
+			us = append(us, pupd{name: "absent.g:absent-a", from: "1", to: "2"})
+		}
+		if r.Intn(40) == 0 { // a Name that is not groupId:artifactId: Write must fail
+			us = append(us, pupd{name: []string{"nocolon", "a:b:c", ""}[r.Intn(3)], from: "1", to: "2"})
 		}
 		if distinct(us) {
 			c1 := c
@@ -1458,7 +1477,11 @@ func main() {
 	must(err)
 	defer os.RemoveAll(scratch)
 
-	emitNpm := func(c npmCase) { l := c.line(); out.Emit(l, runNpm(c, l)) }
+	emitNpm := func(c npmCase) {
+		l := c.line()
+		before, reply := runNpm(c, l)
+		out.Emit(l+" "+before, reply)
+	}
 	emitPP := func(s1, s2 string) { out.Emit("pp "+hs(s1)+" "+hs(s2), runPP(s1, s2)) }
 	emitPomCase := func(c pomCase, comment, cdata bool) {
 		l := c.line()
@@ -1467,7 +1490,8 @@ func main() {
 		} else if cdata {
 			l = "pomd" + l[3:]
 		}
-		out.Emit(l, runPom(c, comment, cdata))
+		before, reply := runPom(c, comment, cdata)
+		out.Emit(l+" "+before, reply)
 	}
 
 	if o.Replay != "" {
@@ -1475,7 +1499,9 @@ func main() {
 			t := strings.Split(l, " ")
 			switch t[0] {
 			case "npm":
-				out.Emit(l, runNpm(parseNpm(t), l))
+				base := strings.Join(t[:5], " ")
+				before, reply := runNpm(parseNpm(t), base)
+				out.Emit(base+" "+before, reply)
 			case "pp":
 				out.Emit(l, runPP(uhs(t[1]), uhs(t[2])))
 			case "ws":
@@ -1488,7 +1514,8 @@ func main() {
 					out.Emit(line, reply)
 				}
 			case "pom", "pomc", "pomd":
-				out.Emit(l, runPom(parsePom(t), t[0] == "pomc", t[0] == "pomd"))
+				before, reply := runPom(parsePom(t), t[0] == "pomc", t[0] == "pomd")
+				out.Emit(strings.Join(t[:5], " ")+" "+before, reply)
 			default:
 				out.Emit(l, "bad-case")
 			}
